@@ -9,7 +9,7 @@ RULE = (
     "case = (generated tree or single file: depth <= 4, fan-out <= 4, odd names, duplicate / empty / CRLF / around-1MiB contents, "
     "empty directories; store class local/base; link type default(reflink->copy)/copy/hardlink/symlink; state on/off; route: "
     "object-level checkout, index compare/apply with explicit file entries, index compare/apply with the directory as one "
-    "unloaded entry at the top or at a nested key; optionally: directory named with a trailing separator, writable debris under final object names in a local store before the transfer, another location with shared contents staged for the same store and rewritten/removed between staging and transfer).  Bytes and paths of the checked-out location are compared with the "
+    "unloaded entry at the top or at a nested key; optionally: directory named with a trailing separator or through //, /./, /x/../ spellings, writable debris under final object names in a local store before the transfer, another location with shared contents staged for the same store and rewritten/removed between staging and transfer).  Bytes and paths of the checked-out location are compared with the "
     "generator's record; the reloaded directory object with an independently assembled listing.  non-trivial = >= 2 files or a "
     "nested path; distinct = (tree content, configuration)"
 )
@@ -19,7 +19,7 @@ ASSUMPTIONS = [
     "empty directories are not tracked (as the statement says) and are not expected back",
 ]
 MONITORS = "independent walk of the fresh location; reloaded Tree listing vs independent listing; reported nfiles/size vs data"
-REQUIRED_COUNTERS = ["staged_through_trailing_separator", "debris_objects_planted", "interleaved_stagings", "second_generation_roundtrips", "dirs_with_several_large_files", "restaged_after_checkout", "roundtrips", "files_compared", "route/object", "route/index-explicit", "route/index-lazy", "single_file_cases",
+REQUIRED_COUNTERS = ["staged_through_non_normalised_path", "staged_through_trailing_separator", "debris_objects_planted", "interleaved_stagings", "second_generation_roundtrips", "dirs_with_several_large_files", "restaged_after_checkout", "roundtrips", "files_compared", "route/object", "route/index-explicit", "route/index-lazy", "single_file_cases",
                      "store/local", "store/base", "link/hardlink", "link/symlink", "link/copy", "link/default", "with_state", "listing_reloads"]
 
 
@@ -93,11 +93,12 @@ def run_shard(ctx):
 
             from dvc_data.hashfile.transfer import transfer as _transfer
 
-            if not single and rng.random() < 0.15:
-                # the directory is named with a trailing separator (shell completion, os.path.join(d, ""))
-                spath = spath + os.sep
-                cfgd["trailing_separator"] = True
-                res.count("staged_through_trailing_separator")
+            if not single and rng.random() < 0.25:
+                # the directory is named through a legal non-canonical spelling (shell completion, os.path.join(d, ""), joined configuration values)
+                sp_ = rng.choice(["trailing-separator", "trailing-separator", "double-slash", "dot", "dotdot"])
+                spath = {"trailing-separator": spath + os.sep, "double-slash": d + "//src", "dot": d + "/./src", "dotdot": d + "/src/../src"}[sp_]
+                cfgd["source_path_spelling"] = sp_
+                res.count("staged_through_trailing_separator" if sp_ == "trailing-separator" else "staged_through_non_normalised_path")
             if cls == "local" and rng.random() < 0.15:
                 # debris of an interrupted earlier attempt: still-writable, invalid files under final object names
                 victims = [v for v in files.values() if len(v) > 0]
